@@ -228,3 +228,93 @@ Theorem sphereU_same_triangles : forall r c rad,
 Proof.
   intros. unfold sph_trisR, sphU_posR. rewrite <- (sphereU_welds r c), map_map. reflexivity.
 Qed.
+
+(* ---- vertex normals: UVSphere supplies position / |position|; on the outer side of every incident face ---- *)
+Definition corners_outer (t : rvec * rvec * rvec) : Prop :=
+  let '(a, b, c) := t in let n := rfnormal t in 0 < rdot n a /\ 0 < rdot n b /\ 0 < rdot n c.
+Lemma away_corners : forall t, rfaces_away rzero t -> corners_outer t.
+Proof.
+  intros [[a b] c] H. unfold corners_outer. destruct (normal_is_position a b c) as (E1 & E2 & E3).
+  cbv zeta in E1, E2, E3. unfold rfaces_away in H. rewrite <- E1 in H. rewrite E2, E3. auto.
+Qed.
+Theorem sphere_all_normals_outward : forall r c rad, (2 <= r)%N -> (3 <= c)%N -> 0 < rad ->
+  Forall corners_outer (sph_trisR r c rad).
+Proof. intros. eapply Forall_impl; [apply away_corners|]. apply sphere_all_faces_outward; assumption. Qed.
+
+(* ---- the same sum as a stack of frusta: the polyhedron inscribed for (rows, columns) is, wedge by wedge, the two pole
+        pyramids and rows-2 frusta of regular c-gons with circumradius rho_l = rad * sin (phi l) at height y_l = rad * cos (phi l);
+        a frustum of height d between polygons of area A0, A1 has volume d/3 * (A0 + A1 + sqrt (A0*A1)),
+        A_l = c/2 * sin (2*pi/c) * rho_l^2 ---- *)
+Lemma rsum_app : forall f a b, rsum f (a ++ b) = rsum f a + rsum f b.
+Proof. unfold rsum. induction a as [|x a IH]; intros b; cbn [app fold_right]; [ring|]. rewrite IH. ring. Qed.
+Lemma rsum_map : forall f (g : N -> N) l, rsum f (map g l) = rsum (fun k => f (g k)) l.
+Proof. unfold rsum. induction l as [|x l IH]; cbn [map fold_right]; [reflexivity|]. now rewrite IH. Qed.
+Lemma rsum_plus : forall f g l, rsum (fun k => f k + g k) l = rsum f l + rsum g l.
+Proof. unfold rsum. induction l as [|x l IH]; cbn [fold_right]; [ring|]. rewrite IH. ring. Qed.
+Lemma nseq_from_shift : forall k a, nseq_from k (a + 1) = map (fun x => (x + 1)%N) (nseq_from k a).
+Proof. induction k as [|k IH]; intros a; cbn [nseq_from map]; [reflexivity|]. now rewrite IH. Qed.
+Lemma nseq_first : forall n, nseq (n + 1) = 0%N :: map (fun x => (x + 1)%N) (nseq n).
+Proof.
+  intros n. unfold nseq. replace (N.to_nat (n + 1)) with (S (N.to_nat n)) by lia. cbn [nseq_from].
+  now rewrite (nseq_from_shift _ 0).
+Qed.
+Lemma rsum_telescope : forall (g : N -> R) n, rsum (fun l => g l - g (l + 1)%N) (nseq n) = g 0%N - g n.
+Proof.
+  intros g. apply (N.peano_ind (fun n => rsum (fun l => g l - g (l + 1)%N) (nseq n) = g 0%N - g n)).
+  - cbn. ring.
+  - intros n IH. rewrite <- N.add_1_r, nseq_succ, rsum_app, IH. cbn [rsum fold_right]. ring.
+Qed.
+
+Lemma phi_0 : forall r, phi r 0 = 0.
+Proof. intros. unfold phi. change (NR 0) with 0. unfold Rdiv. ring. Qed.
+Lemma phi_r : forall r, (1 <= r)%N -> phi r r = PI.
+Proof. intros r H. pose proof (NR_pos r H). unfold phi. field. lra. Qed.
+Lemma sin_phi_1 : forall r, (1 <= r)%N -> sin (phi r 1) = sin (PI / NR r).
+Proof. intros r H. f_equal. unfold phi. change (NR 1) with 1. pose proof (NR_pos r H). field. lra. Qed.
+Lemma sin_phi_last : forall r, (1 <= r)%N -> sin (phi r (r - 1)) = sin (PI / NR r).
+Proof.
+  intros r H. pose proof (NR_pos r H). rewrite <- (sin_PI_x (PI / NR r)). f_equal. unfold phi.
+  assert (E : NR (r - 1) = NR r - 1) by (unfold NR; rewrite N2Z.inj_sub by lia; rewrite minus_IZR; reflexivity).
+  rewrite E. field. lra.
+Qed.
+
+Definition frusta (r : N) : R :=
+  rsum (fun l => (cos (phi r l) - cos (phi r (l + 1))) *
+                 (sin (phi r l) * sin (phi r l) + sin (phi r (l + 1)) * sin (phi r (l + 1)) + sin (phi r l) * sin (phi r (l + 1))))
+       (nseq r).
+
+Lemma frusta_eq : forall r, (2 <= r)%N ->
+  frusta r = sin (phi r 1) * sin (phi r 1) + sin (phi r (r - 1)) * sin (phi r (r - 1))
+             + sin (PI / NR r) * rsum (fun j => sin (phi r (j + 1)) + sin (phi r (j + 2))) (nseq (r - 2)).
+Proof.
+  intros r Hr. assert (Hr1 : (1 <= r)%N) by lia. unfold frusta.
+  set (S := fun l => sin (phi r l)). set (C := fun l => cos (phi r l)). set (D := sin (PI / NR r)).
+  rewrite (rsum_ext_in _ (fun l => D * (S l + S (l + 1)%N) + (C l * (S l * S l) - C (l + 1)%N * (S (l + 1)%N * S (l + 1)%N)))).
+  2:{ intros l _. pose proof (turn_phi r l Hr1) as T. fold D in T. unfold S, C. rewrite <- T. ring. }
+  rewrite rsum_plus, rsum_scal, (rsum_telescope (fun l => C l * (S l * S l))).
+  assert (S0 : S 0%N = 0) by (unfold S; rewrite phi_0; apply sin_0).
+  assert (Sr : S r = 0) by (unfold S; rewrite phi_r by exact Hr1; apply sin_PI).
+  assert (S1 : S 1%N = D) by (unfold S, D; apply sin_phi_1, Hr1).
+  assert (Sl : S (r - 1)%N = D) by (unfold S, D; apply sin_phi_last, Hr1).
+  replace r with (r - 2 + 1 + 1)%N at 1 by lia.
+  rewrite nseq_succ, rsum_app, nseq_first. cbn [rsum fold_right]. fold (rsum (fun l => S l + S (l + 1)%N) (map (fun x => (x + 1)%N) (nseq (r - 2)))).
+  rewrite rsum_map.
+  replace (r - 2 + 1 + 1)%N with r by lia. replace (r - 2 + 1)%N with (r - 1)%N by lia.
+  replace (0 + 1)%N with 1%N by lia.
+  rewrite (rsum_ext_in (fun k => S (k + 1)%N + S (k + 1 + 1)%N) (fun j => sin (phi r (j + 1)) + sin (phi r (j + 2)))).
+  2:{ intros j _. unfold S. replace (j + 1 + 1)%N with (j + 2)%N by lia. reflexivity. }
+  fold (S 1%N) (S (r - 1)%N). rewrite S0, Sr, S1, Sl. ring.
+Qed.
+
+(* enclosed volume = c wedges * stack of frusta (pole pyramids = frusta with one radius 0):
+   sum over l of (y_l - y_(l+1))/3 * (c/2 * sin(2*pi/c)) * (rho_l^2 + rho_(l+1)^2 + rho_l * rho_(l+1)) *)
+Theorem sphere_volume_frusta : forall r c rad, (2 <= r)%N -> (1 <= c)%N ->
+  rvol6 (sph_trisR r c rad) / 6 =
+    rsum (fun l => (rad * cos (phi r l) - rad * cos (phi r (l + 1))) / 3 * (NR c / 2 * sin (2 * PI / NR c)) *
+                   ((rad * sin (phi r l)) * (rad * sin (phi r l)) + (rad * sin (phi r (l + 1))) * (rad * sin (phi r (l + 1)))
+                    + (rad * sin (phi r l)) * (rad * sin (phi r (l + 1))))) (nseq r).
+Proof.
+  intros r c rad Hr Hc. rewrite sphere_volume_is_sum by assumption. rewrite <- frusta_eq by exact Hr. unfold frusta.
+  rewrite <- (rsum_scal _ (NR c * (rad * rad * rad * sin (2 * PI / NR c)))).
+  unfold Rdiv at 1. rewrite Rmult_comm, <- rsum_scal. apply rsum_ext_in. intros l _. field.
+Qed.
